@@ -781,7 +781,7 @@ func (fr *Frame) checkLoopBack(lp *Loop, cond Term, st *State) {
 				fr.x.ctx.obls[n-1].Parts = parts[lo:hi]
 				fr.x.ctx.obls[n-1].AutoKeys = keys[lo:hi]
 				fr.x.ctx.obls[n-1].AutoFrame = "batch"
-				fr.x.ctx.obls[n-1].quickOnly = true
+				fr.x.ctx.obls[n-1].quickOnly = false
 			}
 		}
 	}
